@@ -116,7 +116,8 @@ def c07_gapped_matrix(rep, algopy, rng, tier):
         for idx in numpy.ndindex(*B.shape):
             B[idx] = rng.randint(-8, 8) / 4
         for p in range(P):
-            A[0, p] += numpy.diag([rng.choice([3.0, 4.0, -3.0]) for _ in range(n)])
+            # strictly diagonally dominant base matrices (off-diagonal entries in [-1, 1], n <= 3): never singular
+            A[0, p] = numpy.array([[rng.randint(-4, 4) / 4 for _ in range(n)] for _ in range(n)]) + numpy.diag([rng.choice([4.0, 5.0, -4.0]) for _ in range(n)])
         pattern = ['A0 + A2 t^2 + ...', 'even', 'A0 + A1 t + A3 t^3', 'constant'][it % 4]
         if pattern == 'A0 + A2 t^2 + ...':
             A[1] = 0
